@@ -106,6 +106,9 @@ def wrapper_init(tree, cls, base, param):
 
 
 def set_wraps(tree, cls, wrapper):
+    """<cls>.__set__ stores `wrapper(self, instance, value, ...)` of the PROCESSED value as its last statement, and that
+    is the only way it stores anything -- apart from the `_trust_supplied_values` pass-through at its very top.  Any
+    other early store (a fast path that skips the element-wise rebuild) makes the fact false."""
     fn = _func(tree, "__set__", cls)
     if fn is None or not fn.body:
         return False
@@ -113,8 +116,24 @@ def set_wraps(tree, cls, wrapper):
     if not (isinstance(last, ast.Expr) and isinstance(last.value, ast.Call) and _is_super_call(last.value, "__set__")):
         return False
     args = last.value.args
-    return (len(args) == 2 and isinstance(args[1], ast.Call) and isinstance(args[1].func, ast.Name)
-            and args[1].func.id == wrapper and any(isinstance(a, ast.Name) and a.id == "value" for a in args[1].args))
+    if not (len(args) == 2 and isinstance(args[1], ast.Call) and isinstance(args[1].func, ast.Name)
+            and args[1].func.id == wrapper and any(isinstance(a, ast.Name) and a.id == "value" for a in args[1].args)):
+        return False
+    allowed = {id(last.value)}
+    first = fn.body[0]
+    if isinstance(first, ast.If) and "_trust_supplied_values" in ast.unparse(first.test):
+        allowed |= {id(n) for n in ast.walk(first) if isinstance(n, ast.Call)}
+    for n in ast.walk(fn):
+        if isinstance(n, ast.Call) and id(n) not in allowed:
+            if _is_super_call(n, "__set__"):
+                return False
+            if isinstance(n.func, ast.Attribute) and n.func.attr in ("__setitem__", "__setattr__") or \
+                    (isinstance(n.func, ast.Name) and n.func.id == "setattr" and n.args and ast.unparse(n.args[0]) == "instance"):
+                return False
+    for n in ast.walk(fn):       # instance.__dict__[...] = ...
+        if isinstance(n, ast.Assign) and any("instance.__dict__" in ast.unparse(t) for t in n.targets):
+            return False
+    return True
 
 
 def _delegating(expr):
